@@ -166,6 +166,14 @@ class Evaluator:
                 return [self.h(e)]
             return [unk(e)]
         if isinstance(e, ast.IfExp):
+            # a test on a tracked list / text whose emptiness is known here decides the choice (`' [' + ', '.join(parts) + ']' if parts else ''`)
+            t, neg = e.test, False
+            while isinstance(t, ast.UnaryOp) and isinstance(t.op, ast.Not):
+                t, neg = t.operand, not neg
+            if isinstance(t, ast.Name) and t.id in env:
+                known = known_truth(env[t.id])
+                if known is not None:
+                    return self.ev(e.body if known != neg else e.orelse, env)
             a, b = self.ev(e.body, env), self.ev(e.orelse, env)
             if isinstance(a, list) and isinstance(b, list):
                 return _dedup(a + b)
@@ -230,6 +238,22 @@ def _assign(ev: Evaluator, env: Dict[str, object], tgt: ast.AST, val: ast.AST):
     if isinstance(tgt, ast.Name):
         v = ev.ev(val, env)
         env[tgt.id] = v.copy() if isinstance(v, ListVal) else v
+
+
+def known_truth(v) -> Optional[bool]:
+    """Truth value of a tracked list / text when its emptiness is known (None: open)."""
+    if isinstance(v, ListVal):
+        if not v.items:
+            return False
+        if any(i not in v.optional and not is_star(it) for i, it in enumerate(v.items)):
+            return True
+        return None
+    if isinstance(v, list) and v and all(isinstance(a, str) for a in v):
+        if all(a == '' for a in v):
+            return False
+        if all(strip_marks(a) != '' for a in v):
+            return True
+    return None
 
 
 class _LiftIfExp(ast.NodeTransformer):
